@@ -27,7 +27,7 @@ RULE = ("cases = op sequences (register method/async/blocking/subscription(+raw)
         "the identity (tag) of the handler reached through raw_json_request.  Random sequences (length 1..14, 4-name "
         "alphabets incl. case/blank/empty/non-ASCII variants, up to 5 modules, most end with a call sweep over all "
         "modules x names) + exhaustive sequences (reduced op alphabet, each followed by the call sweep): 2 names length<=3 "
-        "(quick), and in thorough also 2 names length 4, 3 and 4 names length<=3.  distinct non-trivial = "
+        "(quick), and in thorough also 2 names length 4 (3 modules) and length 5 (single module), 3 and 4 names length<=3.  distinct non-trivial = "
         "distinct result lines containing at least one failure, removal or dispatch observation")
 TRUSTED = [
     "harness/src/bin/registry.rs: handler identity is observed through closures answering with their tag; an unsubscribe "
@@ -206,12 +206,16 @@ CORPUS = [
 
 
 def gen_cases(ctx):
+    """Generator of (bucket, line)."""
     rng = ctx.rng
-    cases = [("corpus", l) for l in CORPUS]   # (bucket, line)
+    for l in CORPUS:
+        yield ("corpus", l)
     try:
         import os
         with open(os.path.join(vlib.ROOT, "corpus", "C13.lines")) as fh:
-            cases += [("corpus", l.strip()) for l in fh if l.strip() and not l.startswith("#")]
+            for l in fh:
+                if l.strip() and not l.startswith("#"):
+                    yield ("corpus", l.strip())
     except OSError:
         pass
     weights = [w for _, w in ALPHABETS]
@@ -221,15 +225,16 @@ def gen_cases(ctx):
         if rng.random() < 0.7:
             g.sweep()
         if g.ops:
-            cases.append(("random", g.line()))
+            yield ("random", g.line())
+    # (names, exact length, max number of modules)
     ex = [(["a", "b"], 1, 3), (["a", "b"], 2, 3), (["a", "b"], 3, 3)]
     if ctx.thorough or ctx.search_mode:
-        ex += [(["a", "b"], 4, 3), (["a", "b", "c"], 2, 2), (["a", "b", "c"], 3, 2),
+        ex += [(["a", "b"], 4, 3), (["a", "b"], 5, 1), (["a", "b", "c"], 2, 2), (["a", "b", "c"], 3, 2),
                (["a", "b", "c", "d"], 2, 2), (["a", "b", "c", "d"], 3, 2)]
     for names, length, maxmods in ex:
+        bucket = "exhaustive-%dnames-len%d-mods%d" % (len(names), length, maxmods)
         for line in exhaustive(names, length, maxmods):
-            cases.append(("exhaustive-%dnames-len%d" % (len(names), length), line))
-    return cases
+            yield (bucket, line)
 
 
 # ---------------------------------------------------------------- parsing of result lines
@@ -487,8 +492,10 @@ def run(ctx):
     shrunk = {}
     nops = 0
     BATCH = 60000     # result lines carry a dump per op: keep only one batch of them in memory
-    for lo in range(0, len(cases), BATCH):
-        batch = cases[lo:lo + BATCH]
+    while True:
+        batch = list(itertools.islice(cases, BATCH))
+        if not batch:
+            break
         ri, rm = run_both([l for _, l in batch])
         for (bucket, line), a, b in zip(batch, ri, rm):
             ctx.count(bucket)
